@@ -396,3 +396,67 @@ class _Tq:
 
     def close(self):
         pass
+
+
+import harness.C10 as _c10      # noqa: E402
+
+
+@condition("C03.accepted_is_built",
+           anchors=["polyply.src.gen_coords:gen_coords", "polyply.src.gen_coords:_check_molecules", "polyply.src.build_system:BuildSystem.run_system"],
+           rejects=(), selector_only=True, must_cover=["refused", "built", "ring plus detached residue"],
+           stubs=["none: the real gen_coords runs end to end with real files (random seed fixed from VERIF_SEED)"],
+           outside=["molecule types other than the chain, the dimer and the ring with a pendant residue"],
+           cfg={"path_timeout_s": 300},
+           bounds={"quick": dict(), "thorough": dict()},
+           budget={"quick": 280, "thorough": 900})
+def accepted_is_built(sx, B):
+    """'every topology that gen_coords accepts': the real gen_coords on topologies in which a solver-chosen molecule type (chain,
+    dimer, ring with a pendant residue) misses a solver-chosen bond. Either the topology is refused (IOError), or the structure
+    that is written lists every atom of the expanded [ molecules ] section with finite coordinates - in particular a molecule
+    that is not connected is never built into a structure with non-finite coordinates."""
+    layout = sx.sel("layout", [[("SOL", 1), ("RNG", 1)], [("POL", 1), ("DIM", 1), ("SOL", 1)], [("RNG", 1), ("POL", 1)]])
+    broken = sx.sel("broken_type", ["none", "POL", "DIM", "RNG"])
+    which = sx.sel("missing_bond", [0, 1, 2, 3])
+    mt = {}
+    bad = set()
+    for name, res in _c10.MOLS.items():
+        natoms = sum(len(a) for _, a in res)
+        bonds = list(_c10.RNG_BONDS) if name == "RNG" else [(i, i + 1) for i in range(1, natoms)]
+        if name == broken and bonds:
+            bonds.pop(min(which, len(bonds) - 1))
+        if not _c10._connected(natoms, bonds):
+            bad.add(name)
+            if name == "RNG" and any(nm == "RNG" for nm, _ in layout):
+                sx.cover("ring plus detached residue")
+        mt[name] = moltype_text(name, res, bonds=bonds)
+    d = tempfile.mkdtemp(prefix="pverif_", dir=os.environ.get("TMPDIR"))
+    DeferredFileWriter().open_files.clear()
+    np.random.seed(int(os.environ.get("VERIF_SEED", "0") or 0) + 5)
+    import random as _random
+    _random.seed(int(os.environ.get("VERIF_SEED", "0") or 0) + 5)
+    try:
+        (Path(d) / "sys.top").write_text(top_text(mt, layout))
+        try:
+            with patched(bs, tqdm=_Tq):
+                gc.gen_coords(toppath=Path(d) / "sys.top", outpath=Path(d) / "out.gro", name="sys", maxiter=200, box=np.array([6.0, 6.0, 6.0]))
+        except IOError:
+            sx.cover("refused")
+            sx.claim(any(nm in bad for nm, _ in layout), "only topologies with a disconnected molecule are refused")
+            return
+        text = (Path(d) / "out.gro").read_text().split("\n")
+    finally:
+        DeferredFileWriter().open_files.clear()
+        shutil.rmtree(d, ignore_errors=True)
+    sx.cover("built")
+    want = [(r + 1, rn, an) for nm, c in layout for _ in range(c) for r, (rn, ats) in enumerate(_c10.MOLS[nm]) for an in ats]
+    natoms = int(text[1])
+    got = [(int(l[0:5]), l[5:10].strip(), l[10:15].strip(), l[20:44]) for l in text[2:2 + natoms]]
+    sx.claim([g[:3] for g in got] == want, "an accepted topology is written with exactly its atoms", lambda: repr([g[:3] for g in got]))
+
+    def finite(txt):
+        try:
+            return bool(np.all(np.isfinite([float(x) for x in txt.split()]))) and len(txt.split()) == 3
+        except ValueError:
+            return False
+    sx.claim(all(finite(g[3]) for g in got), "every coordinate of an accepted topology is finite",
+             lambda: "layout %r, %s misses bond %d: %r" % (layout, broken, which, [g[3] for g in got if not finite(g[3])]))
